@@ -431,11 +431,19 @@ func init() {
 		var skipped []string
 		for _, g := range groups {
 			for i, r := range g.Rules {
+				base := fmt.Sprintf("rules/%s/rule#%d", g.Name, i+1)
+				// (0) templates refer to captured lists as $name: `$*name` is pattern syntax and is copied verbatim into fix and message
+				for what, tmpl := range map[string]string{"fix": r.Suggest, "message": r.Report} {
+					if tmpl == "" {
+						continue
+					}
+					c.direct = append(c.direct, &directResult{Name: fmt.Sprintf("%s/%s-template-has-no-pattern-only-syntax", base, what), OK: !strings.Contains(tmpl, "$*"),
+						Detail: fmt.Sprintf("the %s template %q contains `$*`: the rule engine expands `$name` only, so the text `$*name` would appear verbatim in the %s", what, tmpl, what)})
+				}
 				if r.Suggest == "" {
 					continue
 				}
 				nfix++
-				base := fmt.Sprintf("rules/%s/rule#%d", g.Name, i+1)
 				sc := parsesAs(r.Suggest)
 				c.direct = append(c.direct, &directResult{Name: base + "/suggestion-is-go", OK: sc != "", Detail: fmt.Sprintf("the fix text %q does not parse as a Go expression or statement list (placeholders are not Go)", r.Suggest)})
 				// (6) the fix names only packages the file is known to import: packages the pattern names, or packages
